@@ -18,6 +18,7 @@ ScopeNeverCold(c)    == NeverCold(c)
 ScopeAll(c)          == TRUE
 
 \* configurations for the lead run: the small set plus members of the class warningToken = 0 < maxToken
+\* (the small set already holds members of Degenerate and of ColdBelowOne)
 MCConfigsLead == MCConfigs \cup { Cfg(6, 1, 1, 10), Cfg(8, 1, 1, 10), Cfg(5, 1, 1, 5) }
 
 \* LEAD run (InScope <- ScopeAll, ExcuseStuck = FALSE): never fails; every reachable state in which the transcription
